@@ -125,9 +125,12 @@ class Module:
         key = (path, hash(text), len(text))
         if key not in _PARSE:
             try:
-                _PARSE[key] = ast.parse(text, filename=path)
+                tree = ast.parse(text, filename=path)
             except SyntaxError as e:   # a tree that does not parse cannot be analysed
                 raise AnchorError('%s does not parse: %s' % (path, e))
+            from .alpha import normalise
+            self.renamed = normalise(tree, path)      # locals that were merely renamed get their reference names back
+            _PARSE[key] = tree
         self.tree = _PARSE[key]
         self.classes = {}
         self.functions = {}
